@@ -883,6 +883,7 @@ def run_c16(ctx):
 
 def run_c19(ctx):
     corpus_format(ctx)
+    corpus_shape(ctx)
 
 
 def run_c13(ctx):
@@ -894,3 +895,117 @@ def lexicon_rows_reader(ctx):
     belong to C14. Run the full rule (writer shape is cheap) but keep the reader obligation."""
     lexicon_rows(ctx)
     ctx.obs = [o for o in ctx.obs if not (o.rule == "FMT" and "|writer|" in o.key)]
+
+
+def corpus_shape(ctx):
+    """CORPUS (C19): sentence bookkeeping of Corpus::from_reader.
+      * a token line appends to the pending token list; the EOS line closes the sentence;
+      * a sentence is stored only if the concatenation of its token surfaces is non-empty
+        (sentences with no tokens are dropped), and the stored Example owns exactly the pending
+        list;
+      * the pending list is replaced by a fresh one on *every* path out of the EOS arm (kept or
+        dropped), so no token leaks into the next sentence;
+      * anything that is neither `surface TAB feature` nor `EOS` reaches the Err return."""
+    crate = ctx.facts("A").lib
+    E = Effects(crate)
+    p = "vibrato::trainer::corpus::Corpus::from_reader"
+    fa = E.fa(p)
+    S = Sym(E, fa)
+    loc = fn_loc(crate, p)
+    # the pending token list: the Vec that receives Word values and is moved into Example.tokens
+    ex = None
+    for b, i, s in fa.stmts():
+        rv = s.get("rv")
+        if rv and rv["k"] == "agg" and str(rv.get("adt", "")).endswith("corpus::Example"):
+            ex = (b, dict(zip(rv["fields"], rv["ops"])))
+    if ex is None:
+        raise EngineError("CORPUS: construction of Example not found")
+    eb, fields = ex
+    tpl = op_place(fields["tokens"])
+    tok = None
+    cur = tpl
+    for _ in range(6):
+        if cur is None:
+            break
+        if len(fa.defs().get(cur["l"], [])) > 1:
+            tok = cur["l"]
+            break
+        d = fa.single_def(cur["l"])
+        if d is None or d[2] != "assign" or d[3]["k"] != "use":
+            break
+        cur = op_place(d[3]["op"])
+    if tok is None:
+        raise EngineError("CORPUS: the pending token list was not identified")
+    # loop header: the lines() iterator's next
+    heads = [b for b, t in fa.calls() if any(strip_generics(x).endswith("::next") for x in callee_paths(t))
+             and "Lines" in " ".join(callee_paths(t))]
+    if len(heads) != 1:
+        raise EngineError("CORPUS: the line loop was not recognised")
+    H = heads[0]
+    # (1) stored only when the concatenated surface is non-empty
+    guard = None
+    for b in sorted(fa.dominators().get(eb, ()), reverse=True):
+        t = fa.term(b)
+        if t["k"] != "switch":
+            continue
+        o = fa.origin(t["op"])
+        neg = False
+        if o[0] == "rv" and o[1]["k"] == "unop" and o[1]["op"] == "Not":
+            o = fa.origin(o[1]["a"])
+            neg = True
+        if o[0] == "call" and "is_empty" in {strip_generics(x).rsplit("::", 1)[-1] for x in callee_paths(o[2])}:
+            f_t, t_t = bool_switch_targets(t)
+            nonempty_edge = t_t if neg else f_t
+            guard = (b, eb in fa.reachable(nonempty_edge, avoid={t_t if not neg else f_t}), o)
+            break
+    ok1 = guard is not None and guard[1]
+    src_ok = False
+    if guard is not None:
+        recv = show(S.operand(guard[2][2]["args"][0]))
+        # the tested string must be the one the sentence is set from
+        sent_calls = [t for b, t in fa.calls() if "set_sentence" in " ".join(callee_paths(t))]
+        src_ok = bool(sent_calls) and show(S.operand(sent_calls[0]["args"][1])) == recv
+    ctx.ob("FMT", "corpus|reader|empty-sentences-dropped", ok1 and src_ok, loc,
+           "an Example is stored only on the non-empty edge of `input.is_empty()`, input being the "
+           "text the sentence is set from" if ok1 and src_ok else
+           "the Example is stored without testing that the sentence text is non-empty (or another "
+           "string is tested): sentences with no tokens are not dropped")
+    # (2) the pending list is renewed on every path from the EOS arm back to the loop header
+    renew = set()
+    for b, i, s in fa.stmts():
+        if "lhs" in s and s["lhs"]["l"] == tok and not s["lhs"]["p"]:
+            o = fa.origin(s["rv"]["op"]) if s["rv"]["k"] == "use" else ("?",)
+            if o[0] == "call" and {strip_generics(x).rsplit("::", 1)[-1] for x in callee_paths(o[2])} & {"new", "default", "with_capacity", "from_elem"}:
+                renew.add(b)
+    for b, t in fa.calls():
+        if {strip_generics(x).rsplit("::", 1)[-1] for x in callee_paths(t)} & {"clear", "take"} and t["args"]:
+            a = E.ap_operand(fa, t["args"][0])
+            if a is not None and a.root == ("local", tok) and not a.proj:
+                renew.add(b)
+    if guard is None:
+        return
+    gb = guard[0]
+    # the EOS arm: everything from the string test's dominator chain... take the block that
+    # creates the sentence text (String::new) as the arm's start
+    arm = None
+    for b in sorted(fa.dominators().get(gb, ()), reverse=True):
+        t = fa.term(b)
+        if t["k"] == "call" and "String::new" in " ".join(strip_generics(x) for x in callee_paths(t)):
+            arm = b
+            break
+    if arm is None:
+        arm = gb
+    leak = H in fa.reachable(arm, avoid=renew)
+    ctx.ob("FMT", "corpus|reader|pending-tokens-renewed", not leak and bool(renew), loc,
+           "every path from the EOS line back to the next line replaces the pending token list "
+           "(kept and dropped sentences alike)" if not leak and renew else
+           "after an EOS line the pending token list can survive into the next sentence (e.g. when "
+           "the sentence is dropped as empty): tokens of one sentence leak into the following one")
+    # (3) malformed lines reach Err
+    from flow import result_exits
+    ok_b, err_b, _ = result_exits(fa)
+    inv = [b for b, t in fa.calls() if "invalid_format" in " ".join(callee_paths(t))]
+    ok3 = bool(inv) and all(not (fa.reachable(b) & ok_b) for b in inv)
+    ctx.ob("FMT", "corpus|reader|malformed-line-is-error", ok3, loc,
+           "the catch-all arm of the line match returns Err" if ok3 else
+           "a malformed line does not lead to an Err return")
